@@ -139,6 +139,29 @@ SMALL_VALID = (
 )
 
 
+def csharp_failing_models() -> List[Tuple[str, str]]:
+    """Seed independent: models which the front end and the inference accept and on which each of the C# calls the smoke
+    tool makes (verify_for_types, generate_types, generate_verification) reports errors: names which collide only after the
+    C# naming conversion (properties, classes, enumeration literals, a class against its interface, methods), and invariant
+    constructs which only the C# transpiler refuses."""
+    def cls(name: str, props: List[str]) -> str:
+        fields = "".join(f"    {p}: int\n" for p in props)
+        args = ", ".join(f"{p}: int" for p in props)
+        body = "".join(f"        self.{p} = {p}\n" for p in props)
+        return f"class {name}:\n{fields}\n    def __init__(self, {args}) -> None:\n{body}\n\n"
+
+    out = [
+        ("csharp_colliding_properties", cls("Something", ["some_prop", "Some_prop"]) + SPECIFIC_TAIL),
+        ("csharp_colliding_properties_abbreviation", cls("Something", ["some_URL", "some_Url"]) + SPECIFIC_TAIL),
+        ("csharp_colliding_classes", cls("Some_thing", ["x"]) + cls("Some_Thing", ["y"]) + SPECIFIC_TAIL),
+        ("csharp_class_vs_interface", "@abstract\n" + cls("Thing", ["x"]) + cls("Concrete_thing(Thing)", []) .replace("def __init__(self, ) -> None:\n", "def __init__(self, x: int) -> None:\n        Thing.__init__(self, x)\n") + cls("IThing", ["y"]) + SPECIFIC_TAIL),
+        ("csharp_colliding_literals", 'class Color(Enum):\n    Red_one = "r1"\n    Red_One = "r2"\n\n\n' + cls("Something", ["x"]) + SPECIFIC_TAIL),
+        ("csharp_colliding_enum_and_class", 'class Some_thing(Enum):\n    A = "a"\n\n\n' + cls("Some_Thing", ["x"]) + SPECIFIC_TAIL),
+        ("csharp_len_of_class", '@invariant(lambda self: len(self.other) > 0, "Other is long.")\nclass Something:\n    other: Other\n\n    def __init__(self, other: Other) -> None:\n        self.other = other\n\n\n' + cls("Other", ["x"]) + SPECIFIC_TAIL),
+    ]
+    return out
+
+
 def deep_models() -> List[Tuple[str, str]]:
     """Seed independent: invariants nested around the depths where the front end still succeeds but a later stage (inference,
     C# generation) may run out of stack: whatever happens, smoke ends with 0 or with 1 and a report."""
@@ -208,7 +231,7 @@ def models(ctx: Ctx, scratch: pathlib.Path) -> Iterator[Tuple[str, pathlib.Path]
         ("syntax_error", "class A(:\n"),
         ("empty", ""),
         ("import_os", "import os\n__version__='1'\n__xml_namespace__='https://x.com'\n"),
-    ] + implementation_specific_models() + deep_models():
+    ] + implementation_specific_models() + deep_models() + csharp_failing_models():
         p = scratch / (name + ".py")
         p.write_text(text)
         yield "synthetic", p
@@ -302,7 +325,7 @@ def replay(ctx: Ctx, data: Dict[str, Any]) -> Any:
         # a corpus or synthetic model: recorded by the name of its file
         scratch = ctx.scratch()
         texts = {c["name"] + ".py": c["text"] for c in corpus(ID)}
-        texts.update({name + ".py": text for name, text in implementation_specific_models() + deep_models()})
+        texts.update({name + ".py": text for name, text in implementation_specific_models() + deep_models() + csharp_failing_models()})
         blobs = {name + ".py": data for name, data in byte_variants()}
         if inp["model"] in blobs:
             p = scratch / inp["model"]
